@@ -56,6 +56,7 @@ def classes_for(S, type_name: str, key: str, node: dict) -> list[VClass]:
     str_like = False
     has_expr = any(a.cls == "STR" and a.sub == "EXPR" for a in alts)
     has_regex = any(a.cls == "STR" and a.sub == "REGEX" for a in alts)
+    has_object = False
     has_bind = any(a.cls == "STR" and a.sub == "BIND" for a in alts)
     for a in alts:
         if a.cls == "BOOL":
@@ -126,6 +127,7 @@ def classes_for(S, type_name: str, key: str, node: dict) -> list[VClass]:
             add(VClass("STR_PLAIN", plain, "QUOTED"))
             add(VClass("INT", lambda q: SNum.sym("n", None, None), "BARE_NUM"))
         elif a.cls == "OBJECT":
+            has_object = True
             continue
     top = node
     if isinstance(top, dict) and "allOf" in top and len(top["allOf"]) == 1:
@@ -136,9 +138,18 @@ def classes_for(S, type_name: str, key: str, node: dict) -> list[VClass]:
         add(VClass("STR_REGEX_I", lambda q: SStr([q, Atom("re", nonempty=True, free=True, excludes=frozenset("\"'")), q, "i"]), "VERBATIM"))
         if key == "expression":
             add(VClass("STR_LIST", lambda q: SStr(["{", Atom("l", nonempty=True, free=True, excludes=frozenset("{}")), "}"]), "VERBATIM"))
-    if out:
+    if out or has_object:
+        # what the dict API can leave under any keyword and no Mapfile text can express: the empty dictionary
+        # a read of a missing key creates, and a dictionary that is not a block (no __type__)
         add(VClass("EMPTYDICT", lambda q: _empty_dict(), "RAISE"))
+        add(VClass("DICT_NO_TYPE", lambda q: _typeless_dict(), "RAISE"))
     return out
+
+
+def _typeless_dict() -> HDict:
+    d = _empty_dict()
+    d["somekey"] = SStr([Atom("v", nonempty=True, free=True)])
+    return d
 
 
 def _empty_dict() -> HDict:
